@@ -58,6 +58,10 @@ struct Case {
     ops: Vec<Op>,
     /// one entry per connection attempt; the last one is fault-free and runs until idle
     conns: Vec<ConnSpec>,
+    /// `MqttOptions::set_pending_throttle` in microseconds (virtual time): pause between two replayed requests,
+    /// during which broker traffic arrives
+    #[serde(default)]
+    throttle_us: u64,
 }
 
 fn ver_of(c: &Case) -> Ver {
@@ -94,6 +98,7 @@ fn build(case: &Case) -> Scenario {
     scn.opts.clean_session = false;
     scn.opts.inflight = case.inflight;
     scn.opts.channel_cap = 1024;
+    scn.opts.pending_throttle_us = case.throttle_us;
     scn.snap = SnapLevel::Full;
     scn.conns.clear();
     for (i, c) in case.conns.iter().enumerate() {
@@ -927,11 +932,15 @@ fn gen_case(g: &mut Gen, ver: &str, flavour: Flavour) -> Case {
             late: vec![],
         });
     }
+    // most runs replay without a pause; some pause between replayed requests so that the broker's acks
+    // of the previous ones arrive while the next one is being taken
+    let throttle_us = *g.rng.pick(&[0u64, 0, 0, 300, 20_000, 400_000]);
     let mut case = Case {
         ver: ver.into(),
         inflight,
         ops,
         conns,
+        throttle_us,
     };
     redraw_sessions(&mut g.rng, flavour, &mut case);
     case
